@@ -402,6 +402,17 @@ where
     if sched.freezes > 0 {
         out.stats.probe("freeze_fired");
     }
+    if sched.align_requests > 0 {
+        out.stats.bump("align_requests", sched.align_requests);
+        out.stats.bump("align_parked", sched.align_parked);
+        out.stats.bump("align_dropped", sched.align_dropped);
+        const KIND: [&str; 9] = ["other", "unlocked_enter", "unlocked_exit", "fs", "hook", "sleep", "client", "guard_drop", "db_mutex_released"];
+        for (k, n) in sched.align_kinds.iter().enumerate() {
+            if *n > 0 {
+                out.stats.bump(&format!("align_parked@{}", KIND[k]), *n);
+            }
+        }
+    }
     let mut sched_digest: u64 = 0xcbf29ce484222325;
     for t in &sched.recorded {
         sched_digest ^= *t as u64;
